@@ -112,6 +112,13 @@ fn cells(tier: &str) -> Vec<Value> {
             id += 1;
         }
     }
+    // the reply to a timed-out request arrives while the request issued `distance` requests later
+    // is in flight (ids that coincide modulo a table size or after truncation)
+    let distances: &[u64] = if tier == "thorough" { &[1, 2, 3, 15, 16, 255, 256, 257, 1023, 1024, 1025, 4095, 4096, 65535, 65536] } else { &[2, 255, 256, 1023, 1024, 1025, 4096] };
+    for &d in distances {
+        v.push(json!({"cell": id, "family": "late-reply-at-distance", "calls": 2, "distance": d}));
+        id += 1;
+    }
     // a request that fails to be sent (over the frame limit) while clones are queued behind a
     // blocked send, followed by a further request while an earlier one is still in flight
     for variant in ["oversize-then-two", "two-oversize-then-two"] {
@@ -371,6 +378,82 @@ async fn cell_inner(addr: SocketAddr, set: Arc<CertSet>, topic: String, c: Value
         tag = if reopen { "late-replies-ignored-after-reopen" } else { "late-replies-ignored" };
     }
     Ok(tag.into())
+}
+
+/// Request "slow" is left unanswered and times out; `distance`-1 filler requests are answered at
+/// once; while the next request ("trigger") is in flight the reply to "slow" arrives, then the
+/// trigger's own reply.
+async fn distance_cell(addr: SocketAddr, set: Arc<CertSet>, topic: String, c: Value) -> Result<String, Fail> {
+    let distance = c["distance"].as_u64().unwrap();
+    let class = format!("late-reply-at-distance:{distance}");
+    let setup = |what: &str, e: String| fail("setup", what, format!("{what}: {e}"));
+    let raw = RawConn::connect(addr, &set.ca, Some(&set.client)).await.map_err(|e| setup("raw connect", e.to_string()))?;
+    let tn = TopicName::try_from(topic.as_str()).map_err(|e| setup("topic", e.to_string()))?;
+    let (mut rs, first) = raw.register(Frame::RegisterReplier(ReplierPayload { topic: tn })).await.map_err(|e| setup("register replier", e.to_string()))?;
+    if first != Some(Frame::Ok) {
+        return Err(setup("register replier", format!("answered {first:?}")));
+    }
+    let replier = tokio::spawn(async move {
+        let mut slow: Option<Frame> = None;
+        while let Some(Ok(f)) = rs.next().await {
+            if let Frame::Message(p) = f {
+                let body = String::from_utf8_lossy(&p.message).to_string();
+                let reply = Frame::Message(MessagePayload { headers: p.headers, message: Bytes::from(format!("re:{body}").into_bytes()) });
+                match body.as_str() {
+                    "slow" => slow = Some(reply),
+                    "trigger" => {
+                        if let Some(late) = slow.take() {
+                            let _ = rs.send(late).await;
+                            tokio::time::sleep(Duration::from_millis(30)).await;
+                        }
+                        let _ = rs.send(reply).await;
+                    }
+                    _ => {
+                        let _ = rs.send(reply).await;
+                    }
+                }
+            }
+        }
+    });
+    let client = net::default_client(addr, &set).await.map_err(|e| setup("client connect", e.to_string()))?;
+    let mut req = client
+        .requestor(&topic)
+        .with_request_encoder(StringCodec)
+        .with_reply_decoder(StringCodec)
+        .with_request_timeout(Duration::from_millis(TIMEOUT_MS))
+        .map_err(|e| setup("timeout config", e.to_string()))?
+        .open()
+        .await
+        .map_err(|e| fail("open-error", &class, format!("requestor open failed: {e}")))?;
+    match req.request("slow".to_string()).await {
+        Err(SeliumError::RequestTimeout) => {}
+        other => return Err(setup("slow", format!("the unanswered request returned {other:?}"))),
+    }
+    for i in 1..distance {
+        let body = format!("fill{i}");
+        let mut done = false;
+        for _ in 0..5 {
+            match req.request(body.clone()).await {
+                Ok(v) if v == format!("re:{body}") => {
+                    done = true;
+                    break;
+                }
+                Ok(v) => return Err(fail("wrong-reply", &class, format!("filler request {body} returned Ok({v:?})"))),
+                Err(SeliumError::RequestTimeout) => continue, // slow machine
+                Err(e) => return Err(setup("filler", e.to_string())),
+            }
+        }
+        if !done {
+            return Err(setup("filler", format!("{body} timed out 5 times")));
+        }
+    }
+    let r = req.request("trigger".to_string()).await;
+    replier.abort();
+    match r {
+        Ok(v) if v == "re:trigger" => Ok("late-reply-ignored".into()),
+        Ok(v) => Err(fail("late-reply-leaked", &class, format!("the request issued {distance} requests after a timed-out one returned Ok({v:?}): the late reply to the timed-out request arrived while it was in flight"))),
+        Err(e) => Err(fail("fresh-request-failed", &class, format!("the request issued {distance} requests after a timed-out one failed with {e} although its own reply was sent 30 ms after the late one"))),
+    }
 }
 
 /// Clones of one requestor. Six 900 KiB requests are issued while the replier does not read, so
@@ -698,6 +781,9 @@ pub async fn run(tier: &str, replaying: bool) -> ! {
         async move {
             let topic = format!("/c04ns/t{}x{}", c["cell"], salt.fetch_add(1, Ordering::SeqCst));
             let nontrivial = c["calls"].as_u64().unwrap() >= 2;
+            if c["family"].as_str() == Some("late-reply-at-distance") {
+                return (true, distance_cell(addr, set.clone(), topic.clone(), c.clone()).await);
+            }
             if c["family"].as_str() == Some("failed-send-under-contention") {
                 return (true, contention_cell(addr, set.clone(), topic.clone(), c.clone()).await);
             }
